@@ -157,6 +157,40 @@ def rand_index(rng, shape):
     return tuple(idx) if len(idx) > 1 or rng.random() < 0.5 else idx[0]
 
 
+def checked_getitem(ctx, alg, cfg, name, X, kx, shape, container, idx):
+    """X[idx] under an independent oracle: every coefficient of the result is numpy's coefficient[idx] (exactly the addressed entries).
+    An index numpy accepts for the trailing shape must not raise.  Returns the indexed multivector or None."""
+    import numpy as np
+    coefs = [np.array(v, dtype=float) for v in X.values()]
+    try:
+        want = [c[idx] for c in coefs]
+    except Exception:
+        return None         # not a valid index for this shape: nothing to say
+    st, sub = ctx.guarded(20, lambda: X[idx])
+    ctx.count('getitem_oracle_checks')
+    cid = [name, 'getitem', list(kx), list(shape), container, idx_repr(idx)]
+    if st == 'timeout':
+        return None
+    if st == 'exc':
+        ctx.violation('indexing a multivector raised on an index every coefficient accepts', cid, config=cfg, keys=list(kx), shape=list(shape),
+                      container=container, index=idx_repr(idx), error=f'{type(sub).__name__}: {sub}'[:200])
+        return None
+    got = list(sub.values())
+    bad = None
+    if tuple(sub.keys()) != tuple(kx) or len(got) != len(want):
+        bad = 'keys changed'
+    else:
+        for j, (g, w) in enumerate(zip(got, want)):
+            if np.shape(g) != np.shape(w) or not np.array_equal(np.asarray(g, dtype=float), w):
+                bad = f'coefficient of {alg.bin2canon[kx[j]]}: got shape {np.shape(g)} value {np.asarray(g).tolist()!r:.80}, addressed entries are shape {np.shape(w)} {w.tolist()!r:.80}'
+                break
+    if bad:
+        ctx.violation('X[idx] does not hold exactly the addressed entries of every coefficient', cid, config=cfg, keys=list(kx), shape=list(shape),
+                      container=container, index=idx_repr(idx), problem=bad)
+        return None
+    return sub
+
+
 def idx_repr(i):
     return repr(i)
 
@@ -185,6 +219,8 @@ def index_case(ctx, alg, iso, cfg, name):
         if op in INFIX:
             return eval(f'a {op} b', {'a': a, 'b': b})
         return getattr(a, op)(b)
+    if checked_getitem(ctx, alg, cfg, name, X, kx, shape, container, idx) is None:
+        return
     st, out = ctx.guarded(30, lambda: (apply(X, Y)[idx], apply(X[idx], Y[idx])))
     if st != 'ok':
         if st == 'exc':
@@ -220,7 +256,9 @@ def setitem_case(ctx, alg, cfg, name):
         kx = gen.permuted(rng, kx)
     X = array_mv(rng, alg, kx, shape, container)
     idx = rand_index(rng, shape)
-    sub = X[idx]
+    sub = checked_getitem(ctx, alg, cfg, name, X, kx, shape, container, idx)
+    if sub is None:
+        return
     how = rng.choice(['mv', 'raw', 'scalar-mv', 'mv-permuted-keys'])
     cid = [name, 'setitem', list(kx), list(shape), container, idx_repr(idx), how]
     if not ctx.want(cid):
